@@ -10,7 +10,8 @@ Open Scope N_scope.
 
 (* the group order blst works with (not in the repository's sources; the constant the
    repository itself writes down, GROUP_ORDER_BYTES, is proved equal in KeysProofs.v) *)
-Definition r_bls : N := 0x73eda753299d7d483339d80809a1d80553bda402fffe5bfeffffffff00000001.
+Definition r_bls_pos : positive := 0x73eda753299d7d483339d80809a1d80553bda402fffe5bfeffffffff00000001.
+Definition r_bls : N := Npos r_bls_pos.
 
 Inductive res (A : Type) : Type := Ok (a : A) | Err | Panic.
 Arguments Ok {A}. Arguments Err {A}. Arguments Panic {A}.
